@@ -207,6 +207,15 @@ def run(chk):
                         why = "unknown field %r was not re-emitted unchanged" % k
         if why:
             chk.violate({"kind": "property", "case": lib.show_case(c), "impl": i[:1500], "explanation": why})
+    # the marshalled text unmarshalled INTO THE VALUE IT CAME FROM, twice: the same record as into a fresh value - every kind of
+    # field is replaced by what the text says, a list is not appended to what the field held (r15 finding)
+    sc = [("croundtripself", c[1]) for c in cases[::3]]
+    si = chk.run_impl(sc)
+    chk.record("unmarshal-into-the-value-itself", sc, si, lambda c, r: r.startswith("ok"))
+    for c, r, fresh in zip(sc, si, impl[::3]):
+        if r != fresh:
+            chk.violate({"kind": "property", "case": lib.show_case(c), "impl": r[:900], "into_a_fresh_value": fresh[:900],
+                         "explanation": "unmarshalling the marshalled text into the value it came from does not reproduce the value (a list field is appended to, not replaced)"})
     # nil in the place of a value (a nil *T, the untyped nil, a slice holding a nil *T) through Marshal, Encoder.Encode and
     # ConvertToParagraph: an error each time, never a panic, and nothing written
     nc = [("cmarshalnil", [t.encode()]) for t in PROBES]
